@@ -201,6 +201,18 @@ def apply(op, d, x, dest=None):
     raise KeyError(op)
 
 
+def _arr_eq(a, b):
+    a, b = np.asarray(a), np.asarray(b)
+    if a.shape != b.shape or a.dtype != b.dtype:
+        return False
+    if a.dtype.kind == "O":
+        return all((p is q) or (p == q) or (p != p and q != q) for p, q in zip(a.ravel().tolist(), b.ravel().tolist()))
+    try:
+        return bool(np.array_equal(a, b, equal_nan=True))
+    except TypeError:
+        return bool(np.array_equal(a, b))
+
+
 def same_as_plain(r, rp):
     """Value oracle: dims, shape, dtype, values (NaN = NaN), name and coordinates equal plain xarray's."""
     import xarray as xr
@@ -209,25 +221,16 @@ def same_as_plain(r, rp):
         return type(r) is type(rp)
     if tuple(r.dims) != tuple(rp.dims) or r.shape != rp.shape or r.dtype != rp.dtype or r.name != rp.name:
         return False
-    a, b = np.asarray(r.values), np.asarray(rp.values)
-    try:
-        if not np.array_equal(a, b, equal_nan=True):
-            return False
-    except TypeError:
-        if not np.array_equal(a, b):
-            return False
+    if not _arr_eq(r.values, rp.values):
+        return False
     if set(r.coords) != set(rp.coords):
         return False
     for k in rp.coords:
         ca, cb = r.coords[k], rp.coords[k]
         if tuple(ca.dims) != tuple(cb.dims):
             return False
-        try:
-            if not np.array_equal(ca.values, cb.values, equal_nan=True):
-                return False
-        except TypeError:
-            if not np.array_equal(ca.values, cb.values):
-                return False
+        if not _arr_eq(ca.values, cb.values):
+            return False
     return True
 
 
@@ -320,4 +323,4 @@ def obs_bookkeeping(r):
             except Exception:  # noqa
                 bad = False
             out[d] = "uniq" if (len(set(v.tolist())) == len(v) and not bad) else "dup"
-    return out, ("float" if r.dtype.kind in "fiu" else "other")
+    return out, ("other" if r.dtype.kind in "bO" else "float")
